@@ -181,6 +181,24 @@ theorem C20_tree_one_per_variable (f : NcFile) (hnames : (f.root.vars.map Var.na
     rw [(varKeys_perm f hnames hdims).length_eq]
     simp [fileVarKeys, List.length_flatMap]⟩
 
+/-- **clauses (1)–(4) as one statement, under the guard of finding C20.reserved_attribute_path**: the variable entries of the
+    handler's dataset are, up to order, EXACTLY the list the property demands — one entry per file variable, under its
+    group's path, with the file's type, shape and attributes, each dimension named after the nearest enclosing
+    declaration, eager iff it is a root variable named like a root dimension.  (Order: coordinate variables are moved to
+    the end of the root; `fh-netcdf` compares the order too.) -/
+theorem C20_tree_exact_partial (f : NcFile) (hnames : (f.root.vars.map Var.name).Nodup)
+    (hdims : (f.root.dims.map Prod.fst).Nodup) (hp : NoPathAttr f) :
+    ((netcdfEntries f).filter Entry.isVar).Perm (demandedVarEntries f) := by
+  rw [demanded_eq_expected f (fun g hg => (hp g hg).2)]
+  exact varEntries_perm f hnames hdims
+
+/-- … and without the guard: exactly that list with the attribute `path` removed inside groups (what is lost in the
+    finding's class is that one attribute and nothing else, for the whole tree at once) -/
+theorem C20_tree_exact_modulo_path (f : NcFile) (hnames : (f.root.vars.map Var.name).Nodup)
+    (hdims : (f.root.dims.map Prod.fst).Nodup) :
+    ((netcdfEntries f).filter Entry.isVar).Perm (expectedVarEntries f) :=
+  varEntries_perm f hnames hdims
+
 /-- groups: every group of the file appears with its own dimensions and attributes -/
 theorem C20_tree_groups (f : NcFile) :
     Entry.group [] f.root.dims f.root.attrs ∈ netcdfEntries f ∧
@@ -548,6 +566,14 @@ example : (exFile.root.dims.map Prod.fst).Nodup ∧
     (netcdfEntries exFile).filterMap Entry.varKey
       = [([], "v"), (["A"], "a"), (["A", "A1"], "a1"), (["B"], "u"), ([], "x")] ∧
     fileVarKeys exFile = [([], "v"), ([], "x"), (["A"], "a"), (["A", "A1"], "a1"), (["B"], "u")] := by decide
+/-- the demanded list of the example file, and the handler's variable entries (the coordinate variable last) -/
+example : demandedVarEntries exFile =
+    [.var [] "v" "i2" [4, 6] [([], "x"), ([], "y")] [] true, .var [] "x" "f4" [4] [([], "x")] [("units", "s:m")] false,
+     .var ["A"] "a" "i4" [2, 6] [(["A"], "x"), ([], "y")] [] true, .var ["A", "A1"] "a1" "i4" [3] [(["A", "A1"], "x")] [] true,
+     .var ["B"] "u" "i4" [4] [([], "x")] [] true] ∧
+    ((netcdfEntries exFile).filter Entry.isVar).length = 5 := by decide
+/-- on the finding's witness the demanded and the served lists differ (so the guard of `C20_tree_exact_partial` is needed) -/
+example : demandedVarEntries pathWitness ≠ expectedVarEntries pathWitness := by decide
 /-- the exactness statement can fail: with the hypothesis on dimension names dropped (a description no netCDF file
     has: `x` declared twice in the root) the coordinate variable would be listed twice -/
 example : ((netcdfEntries { exFile with root := { exFile.root with dims := [("x", 4), ("x", 4)] } }).filterMap
